@@ -112,18 +112,13 @@ class StringSerializableRegistry:
         # TODO: Resolve common type of 2 different types (e.g str from float and bool)
         # Do it by getting all childs of each class with their level then merge it into one list and find one with min(max(levels) for c n childs)
         types = set(types)
-        flag = True
-        while flag:
-            flag = False
-            filtered: Set[T_StringSerializable] = set()
-            for t1, t2 in permutations(types, 2):
-                if (t1, t2) in self.replaces:
-                    filtered.add(t2)
-                    flag = True
-            if flag:
-                types = filtered
-        # noinspection PyUnboundLocalVariable
-        return types
+        # Drop only the types that are a particular case of another given type: a type that is unrelated to the
+        # others (e.g. BooleanString next to IntString and FloatString) has to stay in the result
+        resolved: Set[T_StringSerializable] = set(types)
+        for t1, t2 in permutations(types, 2):
+            if (t1, t2) in self.replaces:
+                resolved.discard(t1)
+        return resolved
 
 
 # Default registry
